@@ -2473,8 +2473,12 @@ func builtinAllP(env *LEnv, args *LVal) *LVal {
 		return env.Errorf("second argument is not a proper sequence: %v", list.Type)
 	}
 	for _, v := range seqCells(list) {
-		expr := SExpr([]*LVal{pred, v})
-		ok := env.Eval(expr)
+		// Apply pred to the element itself.  Building (pred v) and handing it
+		// to Eval re-evaluated v as program text, so an element that is a
+		// symbol or a list -- (all? f '(a (b c))) -- was looked up or called
+		// instead of being passed to pred.  map, select and foldl already
+		// call the function directly.
+		ok := env.FunCall(pred, SExpr([]*LVal{v}))
 		if ok.Type == LError {
 			return ok
 		}
@@ -2498,8 +2502,8 @@ func builtinAnyP(env *LEnv, args *LVal) *LVal {
 		return env.Errorf("second argument is not a list: %v", list.Type)
 	}
 	for _, v := range seqCells(list) {
-		expr := SExpr([]*LVal{pred, v})
-		ok := env.Eval(expr)
+		// See builtinAllP: the element is an argument, not an expression.
+		ok := env.FunCall(pred, SExpr([]*LVal{v}))
 		if ok.Type == LError {
 			return ok
 		}
